@@ -337,10 +337,15 @@ func checkC20Returns(c C20Case) (o Outcome) {
 	dir, cleanup := knutio.Materialise(c.files())
 	defer cleanup()
 	args := append([]string{"portfolio", "returns", "-v", c.V}, c.windowArgs()...)
+	args = append(args, c.filterArgs()...)
 	args = append(args, "j.knut")
+	accRe, comRe := regexp.MustCompile(c.AccFilter), regexp.MustCompile(c.ComFilter)
+	// the portfolio: asset/liability accounts passing --account, positions in commodities passing --commodity
+	inPortfolio := func(a string) bool { return ref.IsAL(a) && accRe.MatchString(a) }
+	comOK := func(com string) bool { return comRe.MatchString(com) }
 	r := knutio.Run(knutio.Opts{Dir: dir}, args...)
 	o.Evals = 1
-	o.Labels = []string{"oracle:returns", "iv:" + ref.Interval(c.Interval).String()}
+	o.Labels = []string{"oracle:returns", "iv:" + ref.Interval(c.Interval).String(), fmt.Sprintf("filter:%v", c.ComFilter != "" || c.AccFilter != "")}
 	if r.TimedOut || r.Signaled || r.Panicked() {
 		o.Violation = V("crash", "knut %v: %s", args, r.Brief())
 		return o
@@ -399,7 +404,7 @@ func checkC20Returns(c C20Case) (o Outcome) {
 	value := func(d ref.Day) *big.Rat {
 		v := new(big.Rat)
 		for _, e := range ideal {
-			if e.Date <= d && ref.IsAL(e.Account) {
+			if e.Date <= d && inPortfolio(e.Account) && comOK(e.Com) {
 				v.Add(v, e.Value)
 			}
 		}
@@ -424,7 +429,7 @@ func checkC20Returns(c C20Case) (o Outcome) {
 				continue
 			}
 			for _, po := range t.Postings {
-				if ref.IsAL(po.Credit) != ref.IsAL(po.Debit) && po.Qty.Sign() != 0 {
+				if inPortfolio(po.Credit) != inPortfolio(po.Debit) && comOK(po.Com) && po.Qty.Sign() != 0 {
 					flows = true
 					if po.Com != c.V || t.HasPerf {
 						depositsOnlyInV = false
@@ -597,6 +602,24 @@ func drawC20(t *rapid.T) C20Case {
 	return c
 }
 
+func drawC20ReturnsCase(t *rapid.T) C20Case {
+	c := drawC20(t)
+	coms := map[string]bool{c.V: true}
+	for _, d := range c.Directives {
+		for _, b := range d.Bookings {
+			coms[b.Com] = true
+		}
+	}
+	all := sortedKeys(coms)
+	if rapid.IntRange(0, 3).Draw(t, "comFilter") == 0 {
+		c.ComFilter = rapid.SampledFrom([]string{"^" + all[0] + "$", "^" + all[len(all)-1] + "$", "A|B|C", "."}).Draw(t, "comFilterV")
+	}
+	if rapid.IntRange(0, 3).Draw(t, "accFilter") == 0 {
+		c.AccFilter = rapid.SampledFrom([]string{"^Assets", "Broker", "Bank|Loan"}).Draw(t, "accFilterV")
+	}
+	return c
+}
+
 func drawC20Weights(t *rapid.T) C20Case {
 	c := drawC20(t)
 	coms := map[string]bool{c.V: true}
@@ -641,7 +664,7 @@ func drawC20Weights(t *rapid.T) C20Case {
 		}
 	}
 	if rapid.IntRange(0, 2).Draw(t, "mapping") == 0 {
-		c.Mapping = rapid.SampledFrom([]string{"1", "1,.", "2,Equities", "1,Other", "1:1,.", "1,nomatch", "1," + all[0] + "$", "1," + all[len(all)-1] + "$", "2," + all[0]}).Draw(t, "mappingV")
+		c.Mapping = rapid.SampledFrom([]string{"1", "1,.", "2,Equities", "1,Other", "1:1,.", "1,nomatch", "1," + all[0] + "$", "1," + all[len(all)-1] + "$", "2," + all[0], "1:1,US", "1:1,Crypto", "1:1,Equities", "1:1,Cash"}).Draw(t, "mappingV")
 	}
 	if rapid.IntRange(0, 3).Draw(t, "comFilter") == 0 {
 		c.ComFilter = rapid.SampledFrom([]string{"^" + all[0] + "$", "A|B|C", "."}).Draw(t, "comFilterV")
@@ -657,5 +680,5 @@ func TestC20Weights(t *testing.T) {
 }
 
 func TestC20Returns(t *testing.T) {
-	runProp(t, "C20", "returns", drawC20, checkC20Returns)
+	runProp(t, "C20", "returns", drawC20ReturnsCase, checkC20Returns)
 }
